@@ -117,3 +117,25 @@ Definition flat_ofb (c c' : cfg) (f : list nat) : bool :=
   (* every job of c' is the image of an atomic job of c *)
   && forallb (fun k => Nat.eqb k 0 || existsb (fun x => atomic_id c x && Nat.eqb (fname f x) k) (all_ids c))
              (all_ids c').
+
+(* ---------- timeouts that the schedule does not reach ---------- *)
+
+(* like [plain], timeouts allowed *)
+Definition plainT_job (c : cfg) (x : nat) : bool :=
+  if j_sched (jc c x)
+  then Nat.eqb (j_window (jc c x)) 0 && (Nat.eqb x 0 || negb (j_forever (jc c x)))
+  else match j_dur (jc c x) with Some _ => true | None => false end
+       && negb (j_forever (jc c x))
+       && match j_sdur (jc c x) with Some 0%N => true | _ => false end.
+Definition plainT (c : cfg) : bool := forallb (plainT_job c) (all_ids c).
+
+(* every timed scheduler is scheduled to end strictly before its timeout expires, the timeout
+   being counted from the beginning of that scheduler's own run *)
+Definition slack (c : cfg) (S E : nat -> N) : Prop :=
+  forall n T, n < njobs c -> j_sched (jc c n) = true -> j_timeout (jc c n) = Some T -> (E n < S n + T)%N.
+Definition slackb (c : cfg) (lS lE : list N) : bool :=
+  forallb (fun n => negb (j_sched (jc c n)) ||
+                    match j_timeout (jc c n) with
+                    | Some T => N.ltb (tab lE n) (tab lS n + T)
+                    | None => true
+                    end) (all_ids c).
